@@ -67,7 +67,7 @@ Print Assumptions C01_swap_pass_plain.
 
 (** and the quiescent invariants again: passes chain *)
 Theorem C01_swap_pass_invariants : forall s s',
-  Inv s -> ValInvB s -> Tplain s -> stabilize [] false s = Ok (s', None) -> ValInvB s' /\ Tplain s'.
+  Inv s -> ValInvB s -> Tplain s -> stabilize [] false s = Ok (s', None) -> ValInvB s' /\ Tplain s' /\ CF s s'.
 Proof. exact passS_ValInvB. Qed.
 Print Assumptions C01_swap_pass_invariants.
 
